@@ -32,7 +32,10 @@ from aiomysensors.exceptions import TransportError, TransportFailedError  # noqa
 from aiomysensors.model.message import Message  # noqa: E402
 
 DRIVER = "DriverMqtt.lean"
-PREFIXES = ["a", "a/b", "a/b/c", "mygateway1-out", "mygateway1-in", "gw/1/2/3/4/5", "x-y_z/7"]
+# topic prefixes: 1-6 levels, and characters that are ordinary in a topic name but special elsewhere (regular
+# expressions, format strings, shells); "+" and "#" are MQTT wildcards and not legal in a topic name
+PREFIXES = ["a", "a/b", "a/b/c", "mygateway1-out", "mygateway1-in", "gw/1/2/3/4/5", "x-y_z/7",
+            "home (upstairs)/gw", "sensors[1]/out", "what?/out", "a.b*c/{0}", "x^y|z$/%s", "back\\slash/é"]
 PAYLOAD_CLASSES = [
     ("empty", ""), ("semicolon", "55.7;13.0;18"), ("slash", "a/b/c"), ("nonascii", "température °C"),
     ("hash", "#"), ("plus", "+"), ("wild", "a/+/#"), ("only-delim", ";"), ("astral", "\U0001f321 ok"),
@@ -361,7 +364,10 @@ def raw_mapping(corr: Corr, ctx, rng):
     timpl = []
     for tpc in topics:
         pl = rng.choice(["", "p", "5;6", "a/b"])
-        timpl.append(mqtt_mod.MQTTTransport._parse_mqtt_to_message(tpc, pl))  # noqa: SLF001
+        try:   # through an instance: works whether the helper is a static method or a method
+            timpl.append(tr._parse_mqtt_to_message(tpc, pl))  # noqa: SLF001
+        except Exception as e:  # noqa: BLE001
+            timpl.append(f"<raised {type(e).__name__}>")
         ops.append(f"line {enc(tpc)} {enc(pl)}")
         corr.count("raw-topic:levels<5" if tpc.count("/") < 4 else "raw-topic:levels>=5")
     return ops, (lines, impl, topics, timpl)
